@@ -1163,4 +1163,1040 @@ theorem attempt_result_tag (v : Variant) (cfg : Cfg) (w : World) :
     (attempt v cfg w).1 = (attemptM v cfg { w with trace := [] }).1.tag :=
   Out.result_eq_tag _
 
+/-! ### Account functions: exact runs and trace shapes (C11) -/
+
+def NoExch : Ev → Prop
+  | .exch .. => False
+  | _ => True
+
+def isOkRes : ExRes → Bool
+  | .ok _ => true
+  | _ => false
+
+def isADNE : ExRes → Bool
+  | .acmeErr .accountDoesNotExist => true
+  | _ => false
+
+theorem saveAccount_spec (w : World) :
+    WriteOut .saveAccount id .saveAccount w (saveAccount w).1 (saveAccount w).2 := by
+  unfold saveAccount
+  rw [writeFileHooks_run .saveAccount (emit .saveAccount)
+    (fun w => { w with trace := w.trace ++ [.saveAccount] }) (fun w => rfl) (fun w => rfl) w]
+  unfold WriteOut
+  rcases w.hks with _ | ⟨b, _ | ⟨b2, rest⟩⟩
+  · simp
+  · cases b <;> simp
+  · cases b <;> simp
+
+/-- Events of an account save: no exchange; if it returned, the save happened. -/
+def SaveShape (es : List Ev) (t : Result) : Prop :=
+  (∀ e ∈ es, NoExch e) ∧ (t = .ok → .saveAccount ∈ es)
+
+theorem saveAccount_shape (w : World) :
+    ∃ es, (saveAccount w).2.trace = w.trace ++ es ∧ SaveShape es (saveAccount w).1.tag ∧
+      (saveAccount w).2.acc = w.acc ∧ (saveAccount w).2.exs = w.exs := by
+  obtain ⟨ha, hx, _, _, _, h | h | h | ⟨b, h⟩⟩ := saveAccount_spec w
+  · exact ⟨[], by rw [h.2]; simp, ⟨by simp, by rw [h.1]; simp⟩, ha, hx⟩
+  · exact ⟨_, h.2.2, ⟨by simp [NoExch], by rw [h.1]; simp⟩, ha, hx⟩
+  · exact ⟨_, h.2.2, ⟨by simp [NoExch], by rw [h.1]; simp⟩, ha, hx⟩
+  · exact ⟨_, h.2.2, ⟨by simp [NoExch], by simp⟩, ha, hx⟩
+
+/-- Shape of `register`: nothing (script exhausted), or the newAccount exchange followed by
+events that are not exchanges, among them the save whenever it returned. -/
+def RegShape (signer : KeyId) (es : List Ev) (t : Result) : Prop :=
+  (es = [] ∧ t = .stuck) ∨
+  ∃ r rest, es = .exch .newAccount .jwk signer r :: rest ∧ SaveShape rest t ∧
+    (t = .ok → isOkRes r = true)
+
+def World.afterExch (w : World) (k : ReqKind) (s : KeyId) (r : ExRes) (rest : List ExRes) : World :=
+  { w with exs := rest, trace := w.trace ++ [.exch k (authOf k) s r] }
+
+def World.withAcc (w : World) (a : Acc) : World := { w with acc := a }
+
+def regAcc (ex : Bool) (a : Acc) : Acc :=
+  { a with hasUrl := true, contactsInSync := true, bindingInSync := true,
+           recKey := a.curKey, caKey := a.curKey, caContactsOk := !ex || a.caContactsOk }
+
+theorem register_run (w : World) :
+    register w = match w.exs with
+      | [] => (.stuck, w)
+      | r :: rest =>
+        match r with
+        | .ok (.account _ true ex) =>
+          saveAccount ((w.afterExch .newAccount w.acc.curKey r rest).withAcc (regAcc ex w.acc))
+        | _ => (.fail .register, w.afterExch .newAccount w.acc.curKey r rest) := by
+  unfold register
+  simp only [bind_run, getW, exchange]
+  rcases w.exs with _ | ⟨r, rest⟩
+  · rfl
+  · simp only
+    split
+    · rename_i ho hl ex
+      cases hl <;> rfl
+    · split
+      · rename_i h; exact absurd rfl (h _ _ _)
+      · rfl
+
+theorem register_shape (w : World) :
+    ∃ es, (register w).2.trace = w.trace ++ es ∧ RegShape w.acc.curKey es (register w).1.tag := by
+  rw [register_run]
+  rcases hx : w.exs with _ | ⟨r, rest⟩
+  · exact ⟨[], by simp, .inl ⟨rfl, rfl⟩⟩
+  · simp only
+    split
+    · rename_i ho ex
+      obtain ⟨es, he, hs, _, _⟩ := saveAccount_shape
+        ((w.afterExch .newAccount w.acc.curKey (.ok (.account ho true ex)) rest).withAcc
+          (regAcc ex w.acc))
+      refine ⟨.exch .newAccount .jwk w.acc.curKey (.ok (.account ho true ex)) :: es, ?_,
+        .inr ⟨_, es, rfl, hs, fun _ => rfl⟩⟩
+      rw [he]; simp [World.afterExch, World.withAcc, authOf]
+    · refine ⟨[_], rfl, .inr ⟨_, [], rfl, ⟨by simp, by simp⟩, by simp⟩⟩
+
+def contactsAcc (a : Acc) : Acc := { a with contactsInSync := true, caContactsOk := true }
+def keyAcc (a : Acc) : Acc := { a with recKey := a.curKey, caKey := a.curKey }
+
+theorem updateContacts_run (w : World) :
+    updateContacts w = match w.exs with
+      | [] => (.stuck, w)
+      | r :: rest =>
+        match r with
+        | .ok _ =>
+          saveAccount ((w.afterExch .accountUpdate w.acc.curKey r rest).withAcc (contactsAcc w.acc))
+        | .acmeErr .accountDoesNotExist => register (w.afterExch .accountUpdate w.acc.curKey r rest)
+        | _ => (.fail .accountUpdate, w.afterExch .accountUpdate w.acc.curKey r rest) := by
+  unfold updateContacts
+  simp only [bind_run, getW, exchange]
+  rcases w.exs with _ | ⟨r, rest⟩
+  · rfl
+  · cases r with
+    | ok b => rfl
+    | acmeErr ty => cases ty <;> rfl
+    | otherErr => rfl
+
+theorem updateKey_run (w : World) :
+    updateKey w = if w.acc.pastKeyKnown = true then
+      match w.exs with
+      | [] => (.stuck, w)
+      | r :: rest =>
+        match r with
+        | .ok _ =>
+          saveAccount ((w.afterExch .keyChange w.acc.recKey r rest).withAcc (keyAcc w.acc))
+        | .acmeErr .accountDoesNotExist => register (w.afterExch .keyChange w.acc.recKey r rest)
+        | _ => (.fail .keyChange, w.afterExch .keyChange w.acc.recKey r rest)
+      else (.fail .pastKey, w) := by
+  unfold updateKey
+  simp only [bind_run, getW]
+  by_cases hp : w.acc.pastKeyKnown = true
+  · simp only [hp, if_true, bind_run, exchange]
+    rcases w.exs with _ | ⟨r, rest⟩
+    · rfl
+    · cases r with
+      | ok b => rfl
+      | acmeErr ty => cases ty <;> rfl
+      | otherErr => rfl
+  · simp only [hp]
+    rfl
+
+/-- Shape of a contact update / key roll-over with its re-registration fallback. -/
+def UpdShape (k : ReqKind) (signer cur : KeyId) (es : List Ev) (t : Result) : Prop :=
+  (es = [] ∧ (t = .stuck ∨ t = .failed .pastKey)) ∨
+  ∃ r rest, es = .exch k .kid signer r :: rest ∧
+    ((isADNE r = true ∧ RegShape cur rest t) ∨
+     (isADNE r = false ∧ SaveShape rest t ∧ (t = .ok → isOkRes r = true)))
+
+theorem updateContacts_shape (w : World) :
+    ∃ es, (updateContacts w).2.trace = w.trace ++ es ∧
+      UpdShape .accountUpdate w.acc.curKey w.acc.curKey es (updateContacts w).1.tag := by
+  rw [updateContacts_run]
+  rcases hx : w.exs with _ | ⟨r, rest⟩
+  · exact ⟨[], by simp, .inl ⟨rfl, .inl rfl⟩⟩
+  · simp only
+    split
+    · rename_i b
+      obtain ⟨es, he, hs, _, _⟩ := saveAccount_shape
+        ((w.afterExch .accountUpdate w.acc.curKey (.ok b) rest).withAcc (contactsAcc w.acc))
+      refine ⟨.exch .accountUpdate .kid w.acc.curKey (.ok b) :: es, ?_,
+        .inr ⟨_, es, rfl, .inr ⟨rfl, hs, fun _ => rfl⟩⟩⟩
+      rw [he]; simp [World.afterExch, World.withAcc, authOf]
+    · obtain ⟨es, he, hs⟩ := register_shape
+        (w.afterExch .accountUpdate w.acc.curKey (.acmeErr .accountDoesNotExist) rest)
+      refine ⟨.exch .accountUpdate .kid w.acc.curKey (.acmeErr .accountDoesNotExist) :: es, ?_,
+        .inr ⟨_, es, rfl, .inl ⟨rfl, hs⟩⟩⟩
+      rw [he]; simp [World.afterExch, authOf]
+    · rename_i h1 h2
+      refine ⟨[.exch .accountUpdate .kid w.acc.curKey r], rfl, .inr ⟨r, [], rfl, .inr ⟨?_, ⟨by simp, by simp⟩, by simp⟩⟩⟩
+      cases r with
+      | ok b => exact absurd rfl (h1 b)
+      | acmeErr ty => cases ty with
+        | accountDoesNotExist => exact absurd rfl h2
+        | other => rfl
+      | otherErr => rfl
+
+theorem updateKey_shape (w : World) :
+    ∃ es, (updateKey w).2.trace = w.trace ++ es ∧
+      UpdShape .keyChange w.acc.recKey w.acc.curKey es (updateKey w).1.tag := by
+  rw [updateKey_run]
+  split
+  · rcases hx : w.exs with _ | ⟨r, rest⟩
+    · exact ⟨[], by simp, .inl ⟨rfl, .inl rfl⟩⟩
+    · simp only
+      split
+      · rename_i b
+        obtain ⟨es, he, hs, _, _⟩ := saveAccount_shape
+          ((w.afterExch .keyChange w.acc.recKey (.ok b) rest).withAcc (keyAcc w.acc))
+        refine ⟨.exch .keyChange .kid w.acc.recKey (.ok b) :: es, ?_,
+          .inr ⟨_, es, rfl, .inr ⟨rfl, hs, fun _ => rfl⟩⟩⟩
+        rw [he]; simp [World.afterExch, World.withAcc, authOf]
+      · obtain ⟨es, he, hs⟩ := register_shape
+          (w.afterExch .keyChange w.acc.recKey (.acmeErr .accountDoesNotExist) rest)
+        refine ⟨.exch .keyChange .kid w.acc.recKey (.acmeErr .accountDoesNotExist) :: es, ?_,
+          .inr ⟨_, es, rfl, .inl ⟨rfl, hs⟩⟩⟩
+        rw [he]; simp [World.afterExch, authOf]
+      · rename_i h1 h2
+        refine ⟨[.exch .keyChange .kid w.acc.recKey r], rfl, .inr ⟨r, [], rfl, .inr ⟨?_, ⟨by simp, by simp⟩, by simp⟩⟩⟩
+        cases r with
+        | ok b => exact absurd rfl (h1 b)
+        | acmeErr ty => cases ty with
+          | accountDoesNotExist => exact absurd rfl h2
+          | other => rfl
+        | otherErr => rfl
+  · exact ⟨[], by simp, .inl ⟨rfl, .inr rfl⟩⟩
+
+/-! ### From alphabets to monitors -/
+
+/-- If every single event of an alphabet is harmless for `Φ`, every trace over it satisfies `Φ`. -/
+theorem TLaw.of_all {Φ : List Ev → Result → Prop} (T : TLaw Φ) {P : Ev → Prop}
+    (h : ∀ e, P e → Φ [e] .ok) : ∀ (es : List Ev) (t : Result), AllEv P es t → Φ es t := by
+  intro es
+  induction es with
+  | nil => intro t _; exact T.nil t
+  | cons e tl ih =>
+    intro t hall
+    have h1 : Φ [e] .ok := h e (hall e List.mem_cons_self)
+    have h2 : Φ tl t := ih t (fun x hx => hall x (List.mem_cons_of_mem _ hx))
+    exact T.app h1 h2
+
+theorem Sat.of_all {Φ : List Ev → Result → Prop} (T : TLaw Φ) {P : Ev → Prop}
+    (h : ∀ e, P e → Φ [e] .ok) {m : M α} (hm : Sat (TR (AllEv P)) m) : Sat (TR Φ) m :=
+  hm.mono fun _ t _ ⟨es, he, hp⟩ => ⟨es, he, T.of_all h es t hp⟩
+
+/-- Events of everything that follows the newOrder step: authorisations, polls, key pair,
+finalize, download, the two file writes. No account request, no account save. -/
+def ARest : Ev → Prop
+  | .exch k a _ _ => a = .kid ∧
+      ((∃ x, k = .authz x) ∨ (∃ x, k = .challengeReady x) ∨ (∃ x, k = .authzPoll x) ∨
+       k = .orderPoll ∨ k = .finalize ∨ k = .certDownload)
+  | .hooks ty _ => ty ≠ .postOperation
+  | .saveAccount => False
+  | _ => True
+
+section RestWalk
+local macro "rw'" "[" ts:term,* "]" : tactic =>
+  `(tactic| (walk [$ts,*] [AllEv.exchange ARest, AllEv.hookGroup ARest, AllEv.emit ARest,
+                  AllEv.freshKey ARest, AllEv.modAcc ARest, AllEv.modFiles ARest]
+                  (AllEv.tlaw ARest).law
+             all_goals simp [ARest, authOf]))
+
+theorem ARest.solveChallenges (ty : ChalType) (l : List (ChalType × Nat)) :
+    Sat (TR (AllEv ARest)) (solveChallenges ty l) := by
+  induction l with
+  | nil => unfold Flow.solveChallenges; rw' []
+  | cons x rest ih => unfold Flow.solveChallenges; rw' [ih]
+theorem ARest.pollAuthz (a n : Nat) : Sat (TR (AllEv ARest)) (pollAuthz a n) := by
+  induction n with
+  | zero => unfold Flow.pollAuthz; rw' []
+  | succ n ih => unfold Flow.pollAuthz; rw' [ih]
+theorem ARest.cleanHooks (l : List Nat) : Sat (TR (AllEv ARest)) (cleanHooks l) := by
+  induction l with
+  | nil => unfold Flow.cleanHooks; rw' []
+  | cons x rest ih => unfold Flow.cleanHooks; rw' [ih]
+theorem ARest.processAuthz (cfg : Cfg) (a : Nat) : Sat (TR (AllEv ARest)) (processAuthz cfg a) := by
+  unfold Flow.processAuthz
+  rw' [ARest.solveChallenges, ARest.pollAuthz, ARest.cleanHooks]
+theorem ARest.processAuthzs (cfg : Cfg) (l : List Nat) :
+    Sat (TR (AllEv ARest)) (processAuthzs cfg l) := by
+  induction l with
+  | nil => unfold Flow.processAuthzs; rw' []
+  | cons x rest ih => unfold Flow.processAuthzs; rw' [ih, ARest.processAuthz]
+theorem ARest.pollOrder (want : OrderStatus) (st : Step) (n : Nat) :
+    Sat (TR (AllEv ARest)) (pollOrder want st n) :=
+  AllEv.pollOrder ARest (by intro s r; simp [ARest]) want st n
+theorem ARest.getKeyPair (cfg : Cfg) : Sat (TR (AllEv ARest)) (getKeyPair cfg) := by
+  unfold Flow.getKeyPair genKey; rw' []
+theorem ARest.fetchPre (v : Variant) (k : KeyId) (n : Bool) :
+    Sat (TR (AllEv ARest)) (fetchPre v k n) :=
+  AllEv.mono (fun e h => by
+    cases e with
+    | exch kd a s r =>
+      obtain ⟨h1, h2 | h2⟩ := h <;> subst h2 <;> simp [ARest, h1, authOf]
+    | hooks ty b =>
+      obtain ⟨h1 | h1, _⟩ := h <;> subst h1 <;> simp [ARest]
+    | saveAccount => exact h
+    | _ => trivial)
+    (AFetch.fetchPre v k n)
+theorem ARest.downloadCert : Sat (TR (AllEv ARest)) downloadCert := by
+  unfold Flow.downloadCert; rw' []
+theorem ARest.checkBody (v : Variant) (k : KeyId) (cb : CertBody) :
+    Sat (TR (AllEv ARest)) (checkBody v k cb) := by
+  unfold Flow.checkBody; rw' []
+theorem ARest.install (v : Variant) (k : KeyId) (n : Bool) (x : CertContent) :
+    Sat (TR (AllEv ARest)) (install v k n x) := by
+  unfold Flow.install Flow.writeKey Flow.writeCert writeFileHooks; rw' []
+end RestWalk
+
+/-! ### Re-association of the attempt -/
+
+theorem M.bind_assoc (m : M α) (f : α → M β) (g : β → M γ) :
+    (m >>= f) >>= g = m >>= fun a => f a >>= g := by
+  funext w
+  simp only [bind_run]
+  rcases m w with ⟨o, w1⟩
+  cases o <;> rfl
+
+theorem M.pure_bind (a : α) (f : α → M β) : (pure a : M α) >>= f = f a := by
+  funext w; rfl
+
+/-- Everything after the account synchronisation. -/
+def afterSync (v : Variant) (cfg : Cfg) : M Unit :=
+  newOrder >>= fun o =>
+  processAuthzs cfg o.authzs >>= fun _ =>
+  pollOrder .ready .orderReadyPoll Gen.DEFAULT_POOL_NB_TRIES >>= fun _ =>
+  getKeyPair cfg >>= fun p =>
+  fetchPre v p.1 p.2 >>= fun _ =>
+  downloadCert >>= fun cb =>
+  checkBody v p.1 cb >>= fun c =>
+  install v p.1 p.2 c
+
+theorem attemptM_eq (v : Variant) (cfg : Cfg) :
+    attemptM v cfg = refreshDirectory >>= fun _ => synchronize v >>= fun _ => afterSync v cfg := by
+  unfold attemptM obtainM prepareM afterSync
+  simp only [M.bind_assoc]
+  have hp : ∀ {α β : Type} (a : α) (f : α → M β), (Pure.pure a : M α) >>= f = f a :=
+    fun a f => M.pure_bind a f
+  simp only [hp]
+
+/-- Glue: a relation that holds of the newOrder step and of every event of the rest holds of
+everything after the synchronisation. -/
+theorem afterSync_sat {Φ : List Ev → Result → Prop} (T : TLaw Φ) (v : Variant) (cfg : Cfg)
+    (hno : Sat (TR Φ) newOrder) (hrest : ∀ e, ARest e → Φ [e] .ok) :
+    Sat (TR Φ) (afterSync v cfg) := by
+  have L := T.law
+  have h1 := fun l => Sat.of_all T hrest (ARest.processAuthzs cfg l)
+  have h2 := fun a b c => Sat.of_all T hrest (ARest.pollOrder a b c)
+  have h3 := Sat.of_all T hrest (ARest.getKeyPair cfg)
+  have h4 := fun k n => Sat.of_all T hrest (ARest.fetchPre v k n)
+  have h5 := Sat.of_all T hrest ARest.downloadCert
+  have h6 := fun k cb => Sat.of_all T hrest (ARest.checkBody v k cb)
+  have h7 := fun k n x => Sat.of_all T hrest (ARest.install v k n x)
+  unfold afterSync
+  walk [hno, h1, h2, h3, h4, h5, h6, h7] [] L
+
+/-! ### Monitor: an account is created only when allowed (C11 `register_only_when`) -/
+
+/-- Replays the signed requests (the directory GET is skipped): a newAccount request is accepted
+only while `allow` holds; after every request `allow` becomes "that request was answered
+accountDoesNotExist". -/
+def regMon : Bool → List Ev → Bool
+  | _, [] => true
+  | p, .exch k _ _ r :: es =>
+    if k = .directory then regMon p es
+    else (k != .newAccount || p) && regMon (isADNE r) es
+  | p, _ :: es => regMon p es
+
+theorem regMon_noexch {es : List Ev} (h : ∀ e ∈ es, NoExch e) (p : Bool) : regMon p es = true := by
+  induction es with
+  | nil => rfl
+  | cons e tl ih =>
+    have he := h e List.mem_cons_self
+    have := ih (fun x hx => h x (List.mem_cons_of_mem _ hx))
+    cases e <;> simp_all [NoExch, regMon]
+
+theorem regMon_append {a b : List Ev} (hb : ∀ q, regMon q b = true) :
+    ∀ p, regMon p a = true → regMon p (a ++ b) = true := by
+  induction a with
+  | nil => intro p _; exact hb p
+  | cons e tl ih =>
+    intro p h
+    cases e with
+    | exch k au s r =>
+      simp only [List.cons_append, regMon] at h ⊢
+      split
+      · rename_i hk; simp only [hk, if_true] at h; exact ih p h
+      · rename_i hk
+        simp only [hk, if_false, Bool.and_eq_true] at h
+        simp only [Bool.and_eq_true]
+        exact ⟨h.1, ih _ h.2⟩
+    | _ => exact ih p h
+
+def ΦReg : List Ev → Result → Prop := fun es _ => ∀ p, regMon p es = true
+
+theorem ΦReg.tlaw : TLaw ΦReg where
+  nil := fun _ _ => rfl
+  app := fun ha hb p => regMon_append hb p (ha p)
+
+theorem RegShape.regMon {s : KeyId} {es : List Ev} {t : Result} (h : RegShape s es t) :
+    regMon true es = true := by
+  rcases h with ⟨rfl, _⟩ | ⟨r, rest, rfl, hs, _⟩
+  · rfl
+  · simp [Flow.regMon, regMon_noexch hs.1]
+
+theorem UpdShape.regMon {k : ReqKind} {s c : KeyId} {es : List Ev} {t : Result}
+    (h : UpdShape k s c es t) (hk : k ≠ .newAccount) (hd : k ≠ .directory) :
+    ∀ p, regMon p es = true := by
+  intro p
+  rcases h with ⟨rfl, _⟩ | ⟨r, rest, rfl, ⟨ha, hr⟩ | ⟨_, hs, _⟩⟩
+  · rfl
+  · simp [Flow.regMon, hk, hd, ha, hr.regMon]
+  · simp [Flow.regMon, hk, hd, regMon_noexch hs.1]
+
+theorem regMon_updateContacts : Sat (TR ΦReg) updateContacts :=
+  ⟨fun w => by
+    obtain ⟨es, he, hs⟩ := updateContacts_shape w
+    exact ⟨es, he, hs.regMon (by simp) (by simp)⟩⟩
+
+theorem regMon_updateKey : Sat (TR ΦReg) updateKey :=
+  ⟨fun w => by
+    obtain ⟨es, he, hs⟩ := updateKey_shape w
+    exact ⟨es, he, hs.regMon (by simp) (by simp)⟩⟩
+
+theorem regMon_of_rest (e : Ev) (h : ARest e) : ΦReg [e] .ok := by
+  intro p
+  cases e with
+  | exch k a s r =>
+    obtain ⟨_, ⟨x, rfl⟩ | ⟨x, rfl⟩ | ⟨x, rfl⟩ | rfl | rfl | rfl⟩ := h <;> simp [regMon]
+  | _ => simp [regMon]
+
+/-- Second round of the newOrder loop. -/
+def newOrder2 : M OrderBody :=
+  getW >>= fun w2 => exchange .newOrder w2.acc.curKey >>= fun r2 => decodeNewOrder r2
+
+theorem newOrder_run (w : World) :
+    Flow.newOrder w = match w.exs with
+      | [] => (.stuck, w)
+      | r :: rest =>
+        match r with
+        | .acmeErr .accountDoesNotExist =>
+          (register >>= fun _ => newOrder2) (w.afterExch .newOrder w.acc.curKey r rest)
+        | _ => decodeNewOrder r (w.afterExch .newOrder w.acc.curKey r rest) := by
+  unfold Flow.newOrder
+  simp only [bind_run, getW, exchange]
+  rcases w.exs with _ | ⟨r, rest⟩
+  · rfl
+  · cases r with
+    | ok b => rfl
+    | acmeErr ty => cases ty <;> rfl
+    | otherErr => rfl
+
+/-- The newOrder step: a re-registration happens only right after `accountDoesNotExist`. -/
+theorem regMon_newOrder : Sat (TR ΦReg) Flow.newOrder := by
+  have hd : ∀ r, Sat (TR ΦReg) (decodeNewOrder r) := by
+    intro r; unfold decodeNewOrder; walk [] [] ΦReg.tlaw.law
+  have hx : ∀ s, Sat (TR ΦReg) (exchange .newOrder s) :=
+    fun s => TR.exchange ΦReg.tlaw _ _ (fun r p => by simp [regMon])
+  have htail : Sat (TR ΦReg) newOrder2 := by
+    unfold newOrder2; walk [hd, hx] [] ΦReg.tlaw.law
+  constructor
+  intro w
+  rw [newOrder_run]
+  rcases hx' : w.exs with _ | ⟨r, rest⟩
+  · exact ⟨[], by simp, fun _ => rfl⟩
+  · simp only
+    split
+    · obtain ⟨es1, he1, hs1⟩ := register_shape
+        (w.afterExch .newOrder w.acc.curKey (.acmeErr .accountDoesNotExist) rest)
+      rcases bind_cases register (fun _ => newOrder2)
+          (w.afterExch .newOrder w.acc.curKey (.acmeErr .accountDoesNotExist) rest) with
+        ⟨a, w2, e1, e2⟩ | ⟨_, e2, e3⟩
+      · obtain ⟨es2, he2, hs2⟩ := htail.run w2
+        rw [e1] at he1
+        refine ⟨.exch .newOrder .kid w.acc.curKey (.acmeErr .accountDoesNotExist) :: (es1 ++ es2),
+          ?_, ?_⟩
+        · rw [e2, he2, he1]; simp [World.afterExch, authOf]
+        · intro p
+          simp only [regMon, isADNE]
+          simp
+          exact regMon_append hs2 true hs1.regMon
+      · refine ⟨.exch .newOrder .kid w.acc.curKey (.acmeErr .accountDoesNotExist) :: es1, ?_, ?_⟩
+        · rw [e3, he1]; simp [World.afterExch, authOf]
+        · intro p
+          simp only [regMon, isADNE]
+          simp
+          exact hs1.regMon
+    · obtain ⟨es2, he2, hs2⟩ := (hd r).run (w.afterExch .newOrder w.acc.curKey r rest)
+      refine ⟨.exch .newOrder .kid w.acc.curKey r :: es2, ?_, ?_⟩
+      · rw [he2]; simp [World.afterExch, authOf]
+      · intro p
+        simp [regMon, hs2 _]
+
+theorem refreshDirectory_run (w : World) :
+    refreshDirectory w = match w.exs with
+      | [] => (.stuck, w)
+      | r :: rest =>
+        (match r with
+          | .ok (.directory true) => .val ()
+          | _ => .fail .directory, w.afterExch .directory 0 r rest) := by
+  unfold refreshDirectory
+  simp only [bind_run, exchange]
+  rcases w.exs with _ | ⟨r, rest⟩
+  · rfl
+  · cases r with
+    | ok b =>
+      cases b with
+      | directory ok => cases ok <;> rfl
+      | _ => rfl
+    | _ => rfl
+
+/-- State of `regMon` after a list of events: unchanged if it contains no signed request, else
+whether the last signed request was answered `accountDoesNotExist`. -/
+def regState : Bool → List Ev → Bool
+  | p, [] => p
+  | p, .exch k _ _ r :: es => if k = .directory then regState p es else regState (isADNE r) es
+  | p, _ :: es => regState p es
+
+/-- What `regMon` accepting a trace means for each newAccount request in it. -/
+theorem regMon_sound {pre post : List Ev} {a : Auth} {s : KeyId} {r : ExRes} :
+    ∀ p, regMon p (pre ++ .exch .newAccount a s r :: post) = true → regState p pre = true := by
+  induction pre with
+  | nil =>
+    intro p h
+    simp [regMon] at h
+    simpa [regState] using h.1
+  | cons e tl ih =>
+    intro p h
+    cases e with
+    | exch k au s' r' =>
+      simp only [List.cons_append, regMon, regState] at h ⊢
+      split
+      · rename_i hk; simp only [hk, if_true] at h; exact ih p h
+      · rename_i hk
+        simp only [hk, if_false, Bool.and_eq_true] at h
+        exact ih _ h.2
+    | _ => exact ih p h
+
+theorem regMon_skip_dir (p : Bool) (s : KeyId) (r : ExRes) (es : List Ev) (a : Auth) :
+    regMon p (.exch .directory a s r :: es) = regMon p es := by
+  simp [regMon]
+
+/-- The synchronisation creates an account only when no URL is stored or the binding changed;
+otherwise only right after `accountDoesNotExist`. -/
+theorem sync_regMon (v : Variant) (w : World) :
+    ∃ es, (synchronize v w).2.trace = w.trace ++ es ∧
+      regMon (!w.acc.hasUrl || !w.acc.bindingInSync) es = true := by
+  have L := ΦReg.tlaw.law
+  have hk : ∀ c : Prop, ∀ [Decidable c], Sat (TR ΦReg) (if c then updateKey else pure ()) := by
+    intro c _; walk [regMon_updateKey] [] L
+  have hc : ∀ c : Prop, ∀ [Decidable c], Sat (TR ΦReg) (if c then updateContacts else pure ()) := by
+    intro c _; walk [regMon_updateContacts] [] L
+  unfold synchronize
+  simp only [bind_run, getW]
+  by_cases hu : w.acc.hasUrl = true
+  · by_cases hb : w.acc.bindingInSync = true
+    · simp only [hu, hb, if_true]
+      have : Sat (TR ΦReg) (if v.keyFirst = true then
+          ((if (!w.acc.keyInSync) = true then updateKey else pure ()) >>= fun _ =>
+            if (!w.acc.contactsInSync) = true then updateContacts else pure ())
+          else ((if (!w.acc.contactsInSync) = true then updateContacts else pure ()) >>= fun _ =>
+            if (!w.acc.keyInSync) = true then updateKey else pure ())) := by
+        walk [hk, hc] [] L
+      obtain ⟨es, he, hs⟩ := this.run w
+      exact ⟨es, he, by simpa using hs false⟩
+    · simp only [hu, hb, if_true]
+      obtain ⟨es1, he1, hs1⟩ := register_shape w
+      rcases bind_cases register (fun _ =>
+          if (v.bindingThenContacts && (!w.acc.contactsInSync && w.acc.keyInSync)) = true
+          then updateContacts else pure ()) w with ⟨a, w2, e1, e2⟩ | ⟨_, _, e3⟩
+      · obtain ⟨es2, he2, hs2⟩ := (hc ((v.bindingThenContacts &&
+            (!w.acc.contactsInSync && w.acc.keyInSync)) = true)).run w2
+        rw [e1] at he1
+        refine ⟨es1 ++ es2, ?_, ?_⟩
+        · show ((register >>= _) w).2.trace = _
+          rw [e2, he2, he1]; simp
+        · exact regMon_append hs2 true hs1.regMon
+      · refine ⟨es1, ?_, ?_⟩
+        · show ((register >>= _) w).2.trace = _
+          rw [e3, he1]
+        · exact hs1.regMon
+  · simp only [hu]
+    obtain ⟨es1, he1, hs1⟩ := register_shape w
+    exact ⟨es1, he1, by simpa [hu] using hs1.regMon⟩
+
+/-! ### Monitor: account state is saved before the next request (C11 `state_saved_before_use`) -/
+
+def isAcctKind : ReqKind → Bool
+  | .newAccount | .accountUpdate | .keyChange => true
+  | _ => false
+
+/-- `pend` = an account request (creation, contact update, roll-over) was answered 2xx and the
+account has not been saved since.  No request may be sent while `pend`. -/
+def savedMon : Bool → List Ev → Bool
+  | _, [] => true
+  | pend, .exch k _ _ r :: es => !pend && savedMon (isAcctKind k && isOkRes r) es
+  | _, .saveAccount :: es => savedMon false es
+  | pend, _ :: es => savedMon pend es
+
+def savedState : Bool → List Ev → Bool
+  | pend, [] => pend
+  | _, .exch k _ _ r :: es => savedState (isAcctKind k && isOkRes r) es
+  | _, .saveAccount :: es => savedState false es
+  | pend, _ :: es => savedState pend es
+
+theorem savedMon_append (a b : List Ev) :
+    ∀ p, savedMon p (a ++ b) = (savedMon p a && savedMon (savedState p a) b) := by
+  induction a with
+  | nil => intro p; simp [savedMon, savedState]
+  | cons e tl ih =>
+    intro p
+    cases e <;> simp [savedMon, savedState, ih, Bool.and_assoc]
+
+theorem savedState_append (a b : List Ev) :
+    ∀ p, savedState p (a ++ b) = savedState (savedState p a) b := by
+  induction a with
+  | nil => intro p; rfl
+  | cons e tl ih => intro p; cases e <;> simp [savedState, ih]
+
+theorem savedMon_noexch {es : List Ev} (h : ∀ e ∈ es, NoExch e) (p : Bool) :
+    savedMon p es = true := by
+  induction es generalizing p with
+  | nil => rfl
+  | cons e tl ih =>
+    have he := h e List.mem_cons_self
+    have ih' := fun q => ih (fun x hx => h x (List.mem_cons_of_mem _ hx)) q
+    cases e with
+    | exch => exact he.elim
+    | saveAccount => simpa [savedMon] using ih' false
+    | _ => simpa [savedMon] using ih' p
+
+theorem savedState_noexch_false {es : List Ev} (h : ∀ e ∈ es, NoExch e) :
+    savedState false es = false := by
+  induction es with
+  | nil => rfl
+  | cons e tl ih =>
+    have he := h e List.mem_cons_self
+    have := ih (fun x hx => h x (List.mem_cons_of_mem _ hx))
+    cases e <;> simp_all [NoExch, savedState]
+
+theorem savedState_saved {es : List Ev} (h : ∀ e ∈ es, NoExch e) (hs : .saveAccount ∈ es)
+    (p : Bool) : savedState p es = false := by
+  induction es generalizing p with
+  | nil => cases hs
+  | cons e tl ih =>
+    have he := h e List.mem_cons_self
+    have htl : ∀ x ∈ tl, NoExch x := fun x hx => h x (List.mem_cons_of_mem _ hx)
+    rcases List.mem_cons.mp hs with rfl | hs'
+    · simp [savedState, savedState_noexch_false htl]
+    · cases e with
+      | exch => exact he.elim
+      | saveAccount => simp [savedState, savedState_noexch_false htl]
+      | _ => simpa [savedState] using ih htl hs' p
+
+def ΦSaved : List Ev → Result → Prop := fun es t =>
+  savedMon false es = true ∧ (t = .ok → savedState false es = false)
+
+theorem ΦSaved.tlaw : TLaw ΦSaved where
+  nil := fun _ => ⟨rfl, fun _ => rfl⟩
+  app := by
+    rintro a b t ⟨a1, a2⟩ ⟨b1, b2⟩
+    have ha := a2 rfl
+    exact ⟨by rw [savedMon_append, a1, ha, b1]; rfl, fun ht => by rw [savedState_append, ha, b2 ht]⟩
+
+theorem SaveShape.saved {es : List Ev} {t : Result} (h : SaveShape es t) (p : Bool) :
+    savedMon p es = true ∧ (t = .ok → savedState p es = false) :=
+  ⟨savedMon_noexch h.1 p, fun ht => savedState_saved h.1 (h.2 ht) p⟩
+
+theorem RegShape.saved {s : KeyId} {es : List Ev} {t : Result} (h : RegShape s es t) :
+    ΦSaved es t := by
+  rcases h with ⟨rfl, rfl⟩ | ⟨r, rest, rfl, hs, _⟩
+  · exact ⟨rfl, by simp⟩
+  · obtain ⟨h1, h2⟩ := hs.saved (isAcctKind .newAccount && isOkRes r)
+    exact ⟨by simp [savedMon, h1], fun ht => by simp [savedState, h2 ht]⟩
+
+theorem UpdShape.saved {k : ReqKind} {s c : KeyId} {es : List Ev} {t : Result}
+    (h : UpdShape k s c es t) : ΦSaved es t := by
+  rcases h with ⟨rfl, ht⟩ | ⟨r, rest, rfl, ⟨ha, hr⟩ | ⟨_, hs, _⟩⟩
+  · exact ⟨rfl, fun h => by rcases ht with rfl | rfl <;> simp at h⟩
+  · have hno : isOkRes r = false := by
+      cases r with
+      | ok b => simp [isADNE] at ha
+      | _ => rfl
+    obtain ⟨h1, h2⟩ := hr.saved
+    exact ⟨by simp [savedMon, hno, h1], fun ht => by simp [savedState, hno, h2 ht]⟩
+  · obtain ⟨h1, h2⟩ := hs.saved (isAcctKind k && isOkRes r)
+    exact ⟨by simp [savedMon, h1], fun ht => by simp [savedState, h2 ht]⟩
+
+theorem saved_register : Sat (TR ΦSaved) register :=
+  ⟨fun w => by obtain ⟨es, he, hs⟩ := register_shape w; exact ⟨es, he, hs.saved⟩⟩
+theorem saved_updateContacts : Sat (TR ΦSaved) updateContacts :=
+  ⟨fun w => by obtain ⟨es, he, hs⟩ := updateContacts_shape w; exact ⟨es, he, hs.saved⟩⟩
+theorem saved_updateKey : Sat (TR ΦSaved) updateKey :=
+  ⟨fun w => by obtain ⟨es, he, hs⟩ := updateKey_shape w; exact ⟨es, he, hs.saved⟩⟩
+
+theorem saved_exchange (k : ReqKind) (s : KeyId) (hk : isAcctKind k = false) :
+    Sat (TR ΦSaved) (exchange k s) :=
+  TR.exchange ΦSaved.tlaw k s fun r => ⟨by simp [savedMon], fun _ => by simp [savedState, hk]⟩
+
+theorem saved_of_rest (e : Ev) (h : ARest e) : ΦSaved [e] .ok := by
+  cases e with
+  | exch k a s r =>
+    obtain ⟨_, ⟨x, rfl⟩ | ⟨x, rfl⟩ | ⟨x, rfl⟩ | rfl | rfl | rfl⟩ := h <;>
+      exact ⟨by simp [savedMon], fun _ => by simp [savedState, isAcctKind]⟩
+  | saveAccount => exact absurd h (by simp [ARest])
+  | _ => exact ⟨by simp [savedMon], fun _ => by simp [savedState]⟩
+
+theorem saved_synchronize (v : Variant) : Sat (TR ΦSaved) (synchronize v) := by
+  unfold synchronize
+  walk [saved_register, saved_updateContacts, saved_updateKey] [] ΦSaved.tlaw.law
+
+theorem saved_newOrder : Sat (TR ΦSaved) Flow.newOrder := by
+  unfold Flow.newOrder decodeNewOrder
+  walk [saved_register] [saved_exchange] ΦSaved.tlaw.law
+  all_goals rfl
+
+theorem saved_attemptM (v : Variant) (cfg : Cfg) : Sat (TR ΦSaved) (attemptM v cfg) := by
+  rw [attemptM_eq]
+  have h1 : Sat (TR ΦSaved) refreshDirectory := by
+    unfold refreshDirectory
+    walk [] [saved_exchange] ΦSaved.tlaw.law
+    all_goals rfl
+  have h3 := afterSync_sat ΦSaved.tlaw v cfg saved_newOrder saved_of_rest
+  walk [h1, saved_synchronize v, h3] [] ΦSaved.tlaw.law
+
+/-- What `savedMon` accepting a trace means: between a successful account request and the next
+request there is an account save. -/
+theorem savedMon_sound {mid post : List Ev} {k k' : ReqKind} {a a' : Auth} {s s' : KeyId}
+    {r r' : ExRes} (hk : isAcctKind k = true) (hr : isOkRes r = true) :
+    ∀ (pre : List Ev) (p : Bool),
+      savedMon p (pre ++ .exch k a s r :: (mid ++ .exch k' a' s' r' :: post)) = true →
+      .saveAccount ∈ mid := by
+  have key : ∀ mid : List Ev, savedMon true (mid ++ .exch k' a' s' r' :: post) = true →
+      .saveAccount ∈ mid := by
+    intro mid
+    induction mid with
+    | nil => intro h; simp [savedMon] at h
+    | cons e tl ih =>
+      intro h
+      cases e with
+      | exch => simp [savedMon] at h
+      | saveAccount => exact List.mem_cons_self
+      | _ => exact List.mem_cons_of_mem _ (ih h)
+  intro pre p h
+  rw [savedMon_append] at h
+  simp only [Bool.and_eq_true] at h
+  have h2 := h.2
+  simp only [savedMon, hk, hr, Bool.and_self, Bool.and_eq_true] at h2
+  exact key mid h2.2
+
+/-! ### Monitor: every `kid` request is signed by the key the CA holds (C11 `sync_order_current`) -/
+
+/-- Replays what the CA holds for the account (`ca`): a `jwk` request answered 2xx makes it hold
+the signer's key; a key change answered 2xx makes it hold the new key `cur`; every `kid` request
+must be signed by the key held at that moment. -/
+def heldMon (cur : KeyId) : KeyId → List Ev → Bool
+  | _, [] => true
+  | ca, .exch k a s r :: es =>
+    match a with
+    | .none => heldMon cur ca es
+    | .jwk => heldMon cur (if isOkRes r then s else ca) es
+    | .kid => (s == ca) && heldMon cur (if k = .keyChange ∧ isOkRes r = true then cur else ca) es
+  | ca, _ :: es => heldMon cur ca es
+
+def heldEnd (cur : KeyId) : KeyId → List Ev → KeyId
+  | ca, [] => ca
+  | ca, .exch k a s r :: es =>
+    match a with
+    | .none => heldEnd cur ca es
+    | .jwk => heldEnd cur (if isOkRes r then s else ca) es
+    | .kid => heldEnd cur (if k = .keyChange ∧ isOkRes r = true then cur else ca) es
+  | ca, _ :: es => heldEnd cur ca es
+
+theorem heldMon_append (cur : KeyId) (a b : List Ev) :
+    ∀ ca, heldMon cur ca (a ++ b) = (heldMon cur ca a && heldMon cur (heldEnd cur ca a) b) := by
+  induction a with
+  | nil => intro ca; simp [heldMon, heldEnd]
+  | cons e tl ih =>
+    intro ca
+    cases e with
+    | exch k au s r => cases au <;> simp [heldMon, heldEnd, ih, Bool.and_assoc]
+    | _ => simp [heldMon, heldEnd, ih]
+
+theorem heldEnd_append (cur : KeyId) (a b : List Ev) :
+    ∀ ca, heldEnd cur ca (a ++ b) = heldEnd cur (heldEnd cur ca a) b := by
+  induction a with
+  | nil => intro ca; rfl
+  | cons e tl ih =>
+    intro ca
+    cases e with
+    | exch k au s r => cases au <;> simp [heldEnd, ih]
+    | _ => simp [heldEnd, ih]
+
+theorem held_noexch (cur : KeyId) {es : List Ev} (h : ∀ e ∈ es, NoExch e) (ca : KeyId) :
+    heldMon cur ca es = true ∧ heldEnd cur ca es = ca := by
+  induction es with
+  | nil => exact ⟨rfl, rfl⟩
+  | cons e tl ih =>
+    have he := h e List.mem_cons_self
+    have ih' := ih (fun x hx => h x (List.mem_cons_of_mem _ hx))
+    cases e with
+    | exch => exact he.elim
+    | _ => simpa [heldMon, heldEnd] using ih'
+
+/-- What `heldMon` accepting a trace means for each `kid` request in it. -/
+theorem heldMon_sound (cur : KeyId) {pre post : List Ev} {k : ReqKind} {s : KeyId} {r : ExRes}
+    (ca : KeyId) (h : heldMon cur ca (pre ++ .exch k .kid s r :: post) = true) :
+    s = heldEnd cur ca pre := by
+  rw [heldMon_append] at h
+  simp only [Bool.and_eq_true, heldMon, beq_iff_eq] at h
+  exact h.2.1
+
+theorem RegShape.held (cur : KeyId) {s : KeyId} {es : List Ev} {t : Result} (h : RegShape s es t)
+    (ca : KeyId) : heldMon cur ca es = true ∧ (t = .ok → heldEnd cur ca es = s) := by
+  rcases h with ⟨rfl, rfl⟩ | ⟨r, rest, rfl, hs, hr⟩
+  · exact ⟨rfl, by simp⟩
+  · have hn := held_noexch cur hs.1
+    refine ⟨by simp [heldMon, (hn _).1], fun ht => ?_⟩
+    simp [heldEnd, hr ht, (hn _).2]
+
+theorem UpdShape.held {k : ReqKind} {s c : KeyId} {es : List Ev} {t : Result}
+    (h : UpdShape k s c es t) (hk : k = .keyChange ∨ s = c) :
+    heldMon c s es = true ∧ (t = .ok → heldEnd c s es = c) := by
+  rcases h with ⟨rfl, ht⟩ | ⟨r, rest, rfl, ⟨ha, hr⟩ | ⟨_, hs, hok⟩⟩
+  · exact ⟨rfl, fun h => by rcases ht with rfl | rfl <;> simp at h⟩
+  · have hno : isOkRes r = false := by
+      cases r with
+      | ok b => simp [isADNE] at ha
+      | _ => rfl
+    obtain ⟨h1, h2⟩ := hr.held c s
+    exact ⟨by simp [heldMon, hno, h1], fun ht => by simp [heldEnd, hno, h2 ht]⟩
+  · have hn := held_noexch c hs.1
+    refine ⟨by simp [heldMon, (hn _).1], fun ht => ?_⟩
+    simp only [heldEnd, (hn _).2, hok ht, and_true]
+    rcases hk with rfl | rfl
+    · simp
+    · simp
+
+/-- Events of the shapes: contact updates are `kid` requests signed by `signer`. -/
+theorem UpdShape.accountUpdate_events {k : ReqKind} {s c : KeyId} {es : List Ev} {t : Result}
+    (h : UpdShape k s c es t) {a : Auth} {s' : KeyId} {r : ExRes}
+    (he : .exch .accountUpdate a s' r ∈ es) : k = .accountUpdate ∧ a = .kid ∧ s' = s := by
+  have hreg : ∀ {sg rest t}, RegShape sg rest t → .exch .accountUpdate a s' r ∈ rest → False := by
+    intro sg rest t hr hm
+    rcases hr with ⟨rfl, _⟩ | ⟨r2, rest2, rfl, hs, _⟩
+    · cases hm
+    · rcases List.mem_cons.mp hm with h | h
+      · cases h
+      · exact hs.1 _ h
+  rcases h with ⟨rfl, _⟩ | ⟨r0, rest, rfl, ⟨_, hr⟩ | ⟨_, hs, _⟩⟩
+  · cases he
+  · rcases List.mem_cons.mp he with h | h
+    · cases h; exact ⟨rfl, rfl, rfl⟩
+    · exact (hreg hr h).elim
+  · rcases List.mem_cons.mp he with h | h
+    · cases h; exact ⟨rfl, rfl, rfl⟩
+    · exact (hs.1 _ h).elim
+
+/-! ### Account functions that returned: effect on the account record -/
+
+theorem saveAccount_val {w w' : World} {u : Unit} (h : saveAccount w = (.val u, w')) :
+    w'.acc = w.acc ∧ w'.exs = w.exs ∧
+      w'.trace = w.trace ++ [.hooks .filePre true, .saveAccount, .hooks .filePost true] := by
+  have hs := saveAccount_spec w
+  rw [h] at hs
+  exact ⟨hs.val.2.2, hs.2.1, hs.val.2.1⟩
+
+theorem register_val {w w' : World} {u : Unit} (h : register w = (.val u, w')) :
+    ∃ ho ex rest, w.exs = .ok (.account ho true ex) :: rest ∧ w'.exs = rest ∧
+      w'.acc = regAcc ex w.acc ∧
+      w'.trace = w.trace ++ [.exch .newAccount .jwk w.acc.curKey (.ok (.account ho true ex)),
+        .hooks .filePre true, .saveAccount, .hooks .filePost true] := by
+  rw [register_run] at h
+  rcases hx : w.exs with _ | ⟨r, rest⟩
+  · rw [hx] at h; simp at h
+  · rw [hx] at h
+    simp only at h
+    split at h
+    · rename_i ho ex
+      obtain ⟨h1, h2, h3⟩ := saveAccount_val h
+      exact ⟨ho, ex, rest, rfl, by rw [h2]; rfl, by rw [h1]; rfl,
+        by rw [h3]; simp [World.afterExch, World.withAcc, authOf]⟩
+    · simp at h
+
+theorem updateContacts_val {w w' : World} {u : Unit} (h : updateContacts w = (.val u, w')) :
+    (∃ b rest, w.exs = .ok b :: rest ∧ w'.exs = rest ∧ w'.acc = contactsAcc w.acc ∧
+      w'.trace = w.trace ++ [.exch .accountUpdate .kid w.acc.curKey (.ok b),
+        .hooks .filePre true, .saveAccount, .hooks .filePost true]) ∨
+    (∃ rest, w.exs = .acmeErr .accountDoesNotExist :: rest ∧
+      register (w.afterExch .accountUpdate w.acc.curKey (.acmeErr .accountDoesNotExist) rest)
+        = (.val u, w')) := by
+  rw [updateContacts_run] at h
+  rcases hx : w.exs with _ | ⟨r, rest⟩
+  · rw [hx] at h; simp at h
+  · rw [hx] at h
+    simp only at h
+    split at h
+    · rename_i b
+      obtain ⟨h1, h2, h3⟩ := saveAccount_val h
+      exact .inl ⟨b, rest, rfl, by rw [h2]; rfl, by rw [h1]; rfl,
+        by rw [h3]; simp [World.afterExch, World.withAcc, authOf]⟩
+    · exact .inr ⟨rest, rfl, h⟩
+    · simp at h
+
+theorem updateKey_val {w w' : World} {u : Unit} (h : updateKey w = (.val u, w')) :
+    (∃ b rest, w.exs = .ok b :: rest ∧ w'.exs = rest ∧ w'.acc = keyAcc w.acc ∧
+      w'.trace = w.trace ++ [.exch .keyChange .kid w.acc.recKey (.ok b),
+        .hooks .filePre true, .saveAccount, .hooks .filePost true]) ∨
+    (∃ rest, w.exs = .acmeErr .accountDoesNotExist :: rest ∧
+      register (w.afterExch .keyChange w.acc.recKey (.acmeErr .accountDoesNotExist) rest)
+        = (.val u, w')) := by
+  rw [updateKey_run] at h
+  split at h
+  · rcases hx : w.exs with _ | ⟨r, rest⟩
+    · rw [hx] at h; simp at h
+    · rw [hx] at h
+      simp only at h
+      split at h
+      · rename_i b
+        obtain ⟨h1, h2, h3⟩ := saveAccount_val h
+        exact .inl ⟨b, rest, rfl, by rw [h2]; rfl, by rw [h1]; rfl,
+          by rw [h3]; simp [World.afterExch, World.withAcc, authOf]⟩
+      · exact .inr ⟨rest, rfl, h⟩
+      · simp at h
+  · simp at h
+
+/-! ### The synchronisation, current order, URL stored and binding unchanged -/
+
+/-- Decomposition of `synchronize` (key first) when the key is out of sync: the roll-over block,
+then — only if it returned — the contact block (or nothing when the contacts are in sync). -/
+theorem sync_keyFirst_keyChanged (v : Variant) (hv : v.keyFirst = true) (w : World)
+    (hu : w.acc.hasUrl = true) (hb : w.acc.bindingInSync = true) (hk : w.acc.keyInSync = false) :
+    ∃ es1 es2 t1, (synchronize v w).2.trace = w.trace ++ (es1 ++ es2) ∧
+      UpdShape .keyChange w.acc.recKey w.acc.curKey es1 t1 ∧
+      ((t1 = .ok ∧ ((w.acc.contactsInSync = false ∧
+            UpdShape .accountUpdate w.acc.curKey w.acc.curKey es2 (synchronize v w).1.tag) ∨
+          (w.acc.contactsInSync = true ∧ es2 = [] ∧ (synchronize v w).1.tag = .ok))) ∨
+       (t1 ≠ .ok ∧ es2 = [] ∧ (synchronize v w).1.tag = t1)) := by
+  have hsync : synchronize v w = (updateKey >>= fun _ =>
+      if (!w.acc.contactsInSync) = true then updateContacts else pure ()) w := by
+    unfold synchronize
+    simp only [bind_run, getW, hu, hb, hv, hk, if_true, Bool.not_false]
+  rw [hsync]
+  obtain ⟨es1, he1, hs1⟩ := updateKey_shape w
+  rcases bind_cases updateKey (fun _ =>
+      if (!w.acc.contactsInSync) = true then updateContacts else pure ()) w with
+    ⟨u, w1, e1, e2⟩ | ⟨hne, e2, e3⟩
+  · rw [e2]
+    rw [e1] at he1 hs1
+    have hcur : w1.acc.curKey = w.acc.curKey := by
+      have := (Frame.updateKey.run w).2.2.1
+      rw [e1] at this; exact this
+    cases hc : w.acc.contactsInSync
+    · simp only [Bool.not_false, if_true]
+      obtain ⟨es2, he2, hs2⟩ := updateContacts_shape w1
+      rw [hcur] at hs2
+      exact ⟨es1, es2, .ok, by rw [he2, he1]; simp, hs1, .inl ⟨rfl, .inl ⟨trivial, hs2⟩⟩⟩
+    · simp only [Bool.not_true, Bool.false_eq_true, if_false]
+      exact ⟨es1, [], .ok, by simpa [pure_run] using he1, hs1, .inl ⟨rfl, .inr ⟨trivial, rfl, rfl⟩⟩⟩
+  · exact ⟨es1, [], _, by rw [e3, he1]; simp, hs1, .inr ⟨hne, rfl, e2⟩⟩
+
+/-! ### Effect of the account functions on the record, when they return -/
+
+/-- `w'` is reached from `w` by consuming a prefix of the script. -/
+def Consumed (w w' : World) : Prop := ∃ pre, w.exs = pre ++ w'.exs
+
+theorem Consumed.refl (w : World) : Consumed w w := ⟨[], rfl⟩
+theorem Consumed.trans {a b c : World} (h1 : Consumed a b) (h2 : Consumed b c) : Consumed a c := by
+  obtain ⟨p1, e1⟩ := h1
+  obtain ⟨p2, e2⟩ := h2
+  exact ⟨p1 ++ p2, by rw [e1, e2, List.append_assoc]⟩
+theorem Consumed.mem {a b : World} (h : Consumed a b) {r : ExRes} (hr : r ∈ b.exs) : r ∈ a.exs := by
+  obtain ⟨p, e⟩ := h
+  rw [e]; exact List.mem_append_right _ hr
+
+theorem register_acc {w w' : World} {u : Unit} (h : register w = (.val u, w')) :
+    Consumed w w' ∧ ∃ ho ex, .ok (.account ho true ex) ∈ w.exs ∧ w'.acc = regAcc ex w.acc := by
+  obtain ⟨ho, ex, rest, h1, h2, h3, _⟩ := register_val h
+  exact ⟨⟨[_], by rw [h1, h2]; rfl⟩, ho, ex, by rw [h1]; exact List.mem_cons_self, h3⟩
+
+theorem updateContacts_acc {w w' : World} {u : Unit} (h : updateContacts w = (.val u, w')) :
+    Consumed w w' ∧ ((.acmeErr .accountDoesNotExist ∉ w.exs → w'.acc = contactsAcc w.acc) ∧
+      (w'.acc = contactsAcc w.acc ∨
+        ∃ ho ex, .ok (.account ho true ex) ∈ w.exs ∧ w'.acc = regAcc ex w.acc)) := by
+  rcases updateContacts_val h with ⟨b, rest, h1, h2, h3, _⟩ | ⟨rest, h1, h2⟩
+  · exact ⟨⟨[_], by rw [h1, h2]; rfl⟩, fun _ => h3, .inl h3⟩
+  · obtain ⟨hc, ho, ex, hm, ha⟩ := register_acc h2
+    have hc' : Consumed w w' := by
+      obtain ⟨p, e⟩ := hc
+      exact ⟨_ :: p, by rw [h1]; simp only [List.cons_append]; congr 1⟩
+    refine ⟨hc', fun hn => absurd (by rw [h1]; exact List.mem_cons_self) hn, .inr ⟨ho, ex, ?_, ha⟩⟩
+    rw [h1]; exact List.mem_cons_of_mem _ hm
+
+theorem updateKey_acc {w w' : World} {u : Unit} (h : updateKey w = (.val u, w')) :
+    Consumed w w' ∧ ((.acmeErr .accountDoesNotExist ∉ w.exs → w'.acc = keyAcc w.acc) ∧
+      (w'.acc = keyAcc w.acc ∨
+        ∃ ho ex, .ok (.account ho true ex) ∈ w.exs ∧ w'.acc = regAcc ex w.acc)) := by
+  rcases updateKey_val h with ⟨b, rest, h1, h2, h3, _⟩ | ⟨rest, h1, h2⟩
+  · exact ⟨⟨[_], by rw [h1, h2]; rfl⟩, fun _ => h3, .inl h3⟩
+  · obtain ⟨hc, ho, ex, hm, ha⟩ := register_acc h2
+    have hc' : Consumed w w' := by
+      obtain ⟨p, e⟩ := hc
+      exact ⟨_ :: p, by rw [h1]; simp only [List.cons_append]; congr 1⟩
+    refine ⟨hc', fun hn => absurd (by rw [h1]; exact List.mem_cons_self) hn, .inr ⟨ho, ex, ?_, ha⟩⟩
+    rw [h1]; exact List.mem_cons_of_mem _ hm
+
+/-- The four shapes of `synchronize`. -/
+theorem sync_eq_noUrl (v : Variant) (w : World) (hu : w.acc.hasUrl = false) :
+    synchronize v w = register w := by
+  unfold synchronize
+  simp only [bind_run, getW, hu, Bool.false_eq_true, if_false]
+
+theorem sync_eq_binding (v : Variant) (w : World) (hu : w.acc.hasUrl = true)
+    (hb : w.acc.bindingInSync = false) :
+    synchronize v w = (register >>= fun _ =>
+      if (v.bindingThenContacts && (!w.acc.contactsInSync && w.acc.keyInSync)) = true
+      then updateContacts else pure ()) w := by
+  unfold synchronize
+  simp only [bind_run, getW, hu, hb, Bool.false_eq_true, if_true, if_false]
+
+theorem sync_eq_keyFirst (v : Variant) (w : World) (hu : w.acc.hasUrl = true)
+    (hb : w.acc.bindingInSync = true) (hv : v.keyFirst = true) :
+    synchronize v w = ((if (!w.acc.keyInSync) = true then updateKey else pure ()) >>= fun _ =>
+      if (!w.acc.contactsInSync) = true then updateContacts else pure ()) w := by
+  unfold synchronize
+  simp only [bind_run, getW, hu, hb, hv, if_true]
+
+theorem sync_eq_contactsFirst (v : Variant) (w : World) (hu : w.acc.hasUrl = true)
+    (hb : w.acc.bindingInSync = true) (hv : v.keyFirst = false) :
+    synchronize v w = ((if (!w.acc.contactsInSync) = true then updateContacts else pure ()) >>= fun _ =>
+      if (!w.acc.keyInSync) = true then updateKey else pure ()) w := by
+  unfold synchronize
+  simp only [bind_run, getW, hu, hb, hv, if_true, Bool.false_eq_true, if_false]
+
+/-- Possible effects of one account step on the record. -/
+def StepEff (w w' : World) : Prop :=
+  Consumed w w' ∧ (w'.acc = w.acc ∨ w'.acc = keyAcc w.acc ∨ w'.acc = contactsAcc w.acc ∨
+    ∃ ho ex, .ok (.account ho true ex) ∈ w.exs ∧ w'.acc = regAcc ex w.acc)
+
+theorem optKey_eff {c : Prop} [Decidable c] {w w' : World} {u : Unit}
+    (h : (if c then updateKey else pure ()) w = (.val u, w')) :
+    (¬c ∧ w' = w) ∨ (c ∧ Consumed w w' ∧
+      ((.acmeErr .accountDoesNotExist ∉ w.exs → w'.acc = keyAcc w.acc) ∧
+       (w'.acc = keyAcc w.acc ∨
+        ∃ ho ex, .ok (.account ho true ex) ∈ w.exs ∧ w'.acc = regAcc ex w.acc))) := by
+  by_cases hc : c
+  · simp only [hc, if_true] at h
+    exact .inr ⟨hc, updateKey_acc h⟩
+  · simp only [hc, if_false, pure_run, Prod.mk.injEq] at h
+    exact .inl ⟨hc, h.2.symm⟩
+
+theorem optContacts_eff {c : Prop} [Decidable c] {w w' : World} {u : Unit}
+    (h : (if c then updateContacts else pure ()) w = (.val u, w')) :
+    (¬c ∧ w' = w) ∨ (c ∧ Consumed w w' ∧
+      ((.acmeErr .accountDoesNotExist ∉ w.exs → w'.acc = contactsAcc w.acc) ∧
+       (w'.acc = contactsAcc w.acc ∨
+        ∃ ho ex, .ok (.account ho true ex) ∈ w.exs ∧ w'.acc = regAcc ex w.acc))) := by
+  by_cases hc : c
+  · simp only [hc, if_true] at h
+    exact .inr ⟨hc, updateContacts_acc h⟩
+  · simp only [hc, if_false, pure_run, Prod.mk.injEq] at h
+    exact .inl ⟨hc, h.2.symm⟩
+
 end AcmedVerif.Flow
